@@ -586,6 +586,9 @@ class Fn:
         out = []
         for s in stmts:
             out.extend(self.stmt(s, ind))
+            if getattr(self, '_dead', False):
+                self._dead = False            # a statically taken branch ended in return / raise: the rest of this block is unreachable
+                break
         if not out:
             out.append(' ' * ind + 'pure ()')
         return out
